@@ -3,11 +3,11 @@
    Z / positive / N / nat stay as extracted inductives. *)
 From Coq Require Extraction.
 From Coq Require Import ExtrOcamlBasic.
-From LZ4V Require Import Base GenXXH GenBlock GenStream GenLz4 XXH32 BlockFormat BlockExec DecodePortable DecodeAsm CompressFast CompressFastTable CompressHC CompressHCTop FrameSpec FrameImpl Writer Reader CReader PipeW.
+From LZ4V Require Import Base GenXXH GenBlock GenStream GenLz4 XXH32 BlockFormat BlockExec DecodePortable DecodeAsm CompressFast CompressFastTable CompressHC CompressHCTop FrameSpec FrameImpl Writer Reader CReader PipeW GenLz4c Lz4c.
 
 Extraction "model.ml"
   Z.add Z.mul Z.sub Z.div Z.modulo Z.of_nat Z.to_nat Z.eqb Z.ltb Z.leb
   checksum_zero xxh32_ref xzero xwrite xsum32_g mkx
   spec_decode spec_decode_x encode parse_block strict decode_portable decode_asm
   compress_fast_list compress_hc_list lz4block_CompressBlockBound
-  frame_spec new_writer run_writer wstep sink_bytes new_reader rstep run_reader new_creader cr_read parse_headers trace_ok.
+  frame_spec new_writer run_writer wstep sink_bytes new_reader rstep run_reader new_creader cr_read parse_headers trace_ok cmd_compress cmd_compress_stdio cmd_uncompress.
